@@ -527,7 +527,7 @@ def writers(cx):
             cx.check(k in kinds, "abort:" + k, "a pending transfer is abandoned on %s" % {"reset": "every role/term reset", "timeout": "the election timeout", "removed": "removal of the target from the voters"}[k])
 
 
-@obligation("SNAP.tracker_clear", ["C15", "C20", "C09"], floor=2, kind="exhaustiveness over ADT fields",
+@obligation("SNAP.tracker_clear", ["C15", "C20", "C09", "C12"], floor=2, kind="exhaustiveness over ADT fields",
             why="a snapshot install rebuilds the configuration from scratch; a field surviving the clear makes the rebuild fail its invariant check (fatal) or yields a configuration that is not the snapshot's")
 def tracker_clear(cx):
     cf = cx.fn("tracker::Configuration::clear")
